@@ -417,7 +417,10 @@ func init() {
 			0x00, 0x00, 0x00, 0x00, 0x00, 0x00,
 			0x3c, 0xea, 0x00, 0x60, // 01
 			0x18, 0xf0, // JR back to XOR A
-		}}))
+		}}),
+		// P18: P14's cartridge with a byte-identical header (0100-014F) and another program: what the emulator keeps
+		// about one image must not be taken for another's because their headers agree
+		bankedGuest(0x01, 2, 8, []uint8{2, 3, 1, 7, 6}))
 }
 
 type c25Case struct {
@@ -758,7 +761,7 @@ func init() {
 				}
 			}
 			// the same at frame-sized steps (2 instances x 2 frames); P10 needs a frame to reach the LCD-on loop
-			for _, mc := range []struct{ ps, cfg []int }{{[]int{10, 0}, []int{0, 1}}, {[]int{10, 10}, []int{0, 3}}, {[]int{9, 10}, []int{2, 0}}, {[]int{10, 9}, nil}, {[]int{9, 11}, nil}, {[]int{11, 9}, nil}, {[]int{11, 10}, nil}, {[]int{12, 12}, nil}, {[]int{12, 1}, nil}, {[]int{0, 12}, nil}, {[]int{14, 15}, nil}, {[]int{15, 14}, nil}, {[]int{16, 17}, nil}, {[]int{17, 16}, nil}, {[]int{16, 16}, nil}} {
+			for _, mc := range []struct{ ps, cfg []int }{{[]int{10, 0}, []int{0, 1}}, {[]int{10, 10}, []int{0, 3}}, {[]int{9, 10}, []int{2, 0}}, {[]int{10, 9}, nil}, {[]int{9, 11}, nil}, {[]int{11, 9}, nil}, {[]int{11, 10}, nil}, {[]int{12, 12}, nil}, {[]int{12, 1}, nil}, {[]int{0, 12}, nil}, {[]int{14, 15}, nil}, {[]int{15, 14}, nil}, {[]int{14, 18}, nil}, {[]int{18, 14}, nil}, {[]int{16, 17}, nil}, {[]int{17, 16}, nil}, {[]int{16, 16}, nil}} {
 				for cr := 0; cr < 3; cr++ {
 					ok := true
 					interleavings(2, 2, func(s []int) bool {
@@ -800,9 +803,10 @@ func init() {
 		}
 		explore.Product(c.R, "interleavings", explore.PartOpt{Workers: 1, Guard: true, SameSig: true,
 			Bound:  fmt.Sprintf("all interleavings of shapes %v (instances x steps), units %v cycles + frame steps 2x3, 3x2; 3 creation orders", shapes, units),
-			Domain: "instances built with and without the debug options (CPU trace, debug LCD geometry) side by side; 18 guest programs (MBC1 cartridges of different ROM sizes selecting their higher banks; two MBC3 clock cartridges interleaving their latch-port writes; cartridge RAM on MBC3; a guest executing every defined opcode once per round; a second video program with other tile data and scroll; execution across echo RAM into object memory with the LCD on; ALU/CB/branches; stores/stack/CALL; timer interrupt + HALT; cartridge RAM writer on MBC1 with 4 banks; cartridge RAM read-before-write on MBC1 with 1 bank, on MBC2 and on MBC5; two sound programs that power-cycle the APU and run different channel-1 sweeps; video + OAM DMA + serial + joypad select)"},
+			Domain: "instances built with and without the debug options (CPU trace, debug LCD geometry) side by side; 19 guest programs (two MBC1 cartridges with byte-identical headers and different code; MBC1 cartridges of different ROM sizes selecting their higher banks; two MBC3 clock cartridges interleaving their latch-port writes; cartridge RAM on MBC3; a guest executing every defined opcode once per round; a second video program with other tile data and scroll; execution across echo RAM into object memory with the LCD on; ALU/CB/branches; stores/stack/CALL; timer interrupt + HALT; cartridge RAM writer on MBC1 with 4 banks; cartridge RAM read-before-write on MBC1 with 1 bank, on MBC2 and on MBC5; two sound programs that power-cycle the APU and run different channel-1 sweeps; video + OAM DMA + serial + joypad select)"},
 			gen, func() *c25Env { return &c25Env{solo: map[string][]uint64{}, out: capture, exe: c.SelfExe} }, c25Check)
 		os.Stdout = oldStdout
+		c25GBPart(c)
 		c25RacePass(c)
 	})
 }
